@@ -71,6 +71,8 @@ KNOWN_WITNESSES = {
     "F-C10-3": {"k": "extract", "data": ["n"], "fields": ["t", [["s", "a"]]]},
 }
 
+ALARM_S = 8          # a child that runs longer than this is killed by SIGALRM (status -14) and counted as died
+BREAKER = 6          # unexplained deaths by timeout per case kind after which the bulk exploration stops calling that kind
 VENV_PY = "/venv/bin/python"
 REPO = os.environ.get("ORSO_REPO", "/repo")
 TOOLS = os.path.dirname(os.path.dirname(os.path.abspath(__file__)))
@@ -207,7 +209,7 @@ def _child_main():
             os.close(w2c_r)
             rf = os.fdopen(c2w_r, "r")
             for line in rf:
-                signal.alarm(60)
+                signal.alarm(ALARM_S)
                 res = _run_case(json.loads(line))
                 signal.alarm(0)
                 _write_all(w2c_w, (json.dumps(res) + "\n").encode())
@@ -233,7 +235,7 @@ def _child_main():
         pid = os.fork()
         if pid == 0:
             os.close(r)
-            signal.alarm(60)
+            signal.alarm(ALARM_S)
             res = _run_case(case)
             _write_all(w, json.dumps(res).encode())
             os._exit(0)
@@ -421,8 +423,21 @@ def _mode(case):
     return "iso"
 
 
+_TIMEOUTS = {}
+
+
 def observe(case):
-    return _ask(case, _mode(case))
+    """Run the case in a sacrificial process.  Circuit breaker: a broken build of the helper can make every
+    other call spin until the alarm; after BREAKER unexplained timeouts of one case kind, further cases of that
+    kind are not executed during the bulk exploration (they are reported as {"skipped": ...}; the run is already
+    failing with replayable inputs).  Replay, shrinking and the targeted search always execute."""
+    k = case["k"]
+    if _TIMEOUTS.get(k, 0) >= BREAKER and sys._getframe(1).f_code.co_name == "explore":
+        return {"skipped": "circuit breaker: %d earlier %s cases were killed by the %d s alarm" % (_TIMEOUTS[k], k, ALARM_S)}
+    obs = _ask(case, _mode(case))
+    if obs.get("died") == -14 and known(case, obs) is None:
+        _TIMEOUTS[k] = _TIMEOUTS.get(k, 0) + 1
+    return obs
 
 
 # ----------------------------------------------------------------------------------------------
@@ -542,6 +557,8 @@ def _wellformed_collect(case):
 
 
 def oracle(case, obs):
+    if "skipped" in obs:
+        return None
     if "died" in obs:
         return "no input may terminate the interpreter: the sacrificial child died with status %s" % obs["died"]
     k = case["k"]
@@ -691,6 +708,8 @@ def _coq_rows(rows, table):
 
 
 def to_coq(case, obs):
+    if "skipped" in obs:
+        return None
     k = case["k"]
     if k in ("collect", "df"):
         v = _collect_view(case)
@@ -743,6 +762,8 @@ def to_coq(case, obs):
 
 # ----------------------------------------------------------------------------------------------
 def nontrivial_key(case, obs):
+    if "skipped" in obs:
+        return None
     k = case["k"]
     if "ok" in obs:
         o = obs["ok"]
@@ -763,6 +784,9 @@ def nontrivial_key(case, obs):
 def classify(case, obs):
     k = case["k"]
     yield "kind:" + k
+    if "skipped" in obs:
+        yield "skipped-by-circuit-breaker"
+        return
     yield "mode:" + _mode(case)
     yield "outcome:" + ("ok" if "ok" in obs else ("died" if "died" in obs else "exc:" + obs["exc"]))
     if k in ("collect", "df"):
